@@ -54,6 +54,37 @@ MAT_SPECIAL = {
 }
 
 
+QUAT = {
+    "q.new": "x x x x", "q.from_sv": "x V3", "q.conjugate": "Q", "q.neg": "Q", "q.add": "Q Q", "q.sub": "Q Q",
+    "q.mul_s": "Q x", "q.div_s": "Q x", "q.rem_s": "Q x", "q.mul": "Q Q", "q.mul_v": "Q V3", "q.dot": "Q Q",
+    "q.magnitude2": "Q", "q.magnitude": "Q", "q.normalize": "Q", "q.normalize_to": "Q x", "q.distance2": "Q Q",
+    "q.distance": "Q Q", "q.angle": "Q Q", "q.project_on": "Q Q", "q.lerp": "Q Q x", "q.nlerp": "Q Q x",
+    "q.slerp": "Q Q x", "q.one": "", "q.zero": "", "q.invert": "Q", "q.rotate_vector": "Q V3",
+    "q.rotate_point": "Q P3", "q.sum_list": "Q*", "q.sum_list_ref": "Q*", "q.product_list": "Q*",
+    "q.product_list_ref": "Q*", "q.to_m3": "Q", "q.to_m4": "Q", "q.to_basis3": "Q", "m3.to_quat": "M3",
+    "b3.to_quat": "Q", "b3.to_m3": "Q", "b3.one": "", "b3.mul": "Q Q", "b3.rotate_vector": "Q V3",
+    "b3.rotate_point": "Q P3", "b3.invert": "Q", "b3.product_list": "Q*", "b3.product_list_ref": "Q*",
+    "b2.one": "", "b2.from_angle": "x", "b2.from_angle_deg": "x", "b2.mul": "x x", "b2.rotate_vector": "x V2",
+    "b2.rotate_point": "x P2", "b2.invert": "x", "b2.product_list": "x*", "m2.from_angle": "x",
+    "m2.from_angle_deg": "x", "m3.from_angle_x": "x", "m3.from_angle_y": "x", "m3.from_angle_z": "x",
+    "m3.from_axis_angle": "V3 x", "m3.from_axis_angle_deg": "V3 x", "m4.from_angle_x": "x",
+    "m4.from_angle_x_deg": "x", "m4.from_angle_y": "x", "m4.from_angle_z": "x", "m4.from_axis_angle": "V3 x",
+    "b3.from_angle_x": "x", "b3.from_angle_y": "x", "b3.from_angle_z": "x", "b3.from_axis_angle": "V3 x",
+    "q.from_angle_x": "x", "q.from_angle_y": "x", "q.from_angle_z": "x", "q.from_axis_angle": "V3 x",
+    "q.from_axis_angle_deg": "V3 x", "m3.from_euler": "x x x", "m3.from_euler_deg": "x x x",
+    "m4.from_euler": "x x x", "b3.from_euler": "x x x", "q.from_euler": "x x x", "q.from_euler_deg": "x x x",
+    "q.to_euler": "Q", "m2.look_at": "V2 V2", "m2.look_at_stable": "V2 #b", "b2.look_at": "V2 V2",
+    "b2.look_at_stable": "V2 #b", "m3.look_to_lh": "V3 V3", "m3.look_to_rh": "V3 V3", "m3.look_at_dep": "V3 V3",
+    "m4.look_to_rh": "P3 V3 V3", "m4.look_to_lh": "P3 V3 V3", "m4.look_at_rh": "P3 P3 V3",
+    "m4.look_at_lh": "P3 P3 V3", "m4.look_at_dep": "P3 P3 V3", "m4.look_at_dir_dep": "P3 V3 V3",
+    "m3.tlook_at2": "P2 P2 V2", "m3.tlook_at2_lh": "P2 P2 V2", "m3.tlook_at2_rh": "P2 P2 V2",
+    "m3.tlook_at": "P3 P3 V3", "m3.tlook_at_lh": "P3 P3 V3", "m3.tlook_at_rh": "P3 P3 V3",
+    "m4.tlook_at": "P3 P3 V3", "m4.tlook_at_lh": "P3 P3 V3", "m4.tlook_at_rh": "P3 P3 V3",
+    "q.look_at": "V3 V3", "b3.look_at": "V3 V3", "q.between_vectors": "V3 V3", "b3.between_vectors": "V3 V3",
+    "b2.between_vectors": "V2 V2", "q.from_arc": "V3 V3", "q.from_arc_fb": "V3 V3 V3",
+}
+
+
 def build():
     sig = {}
     for n in (1, 2, 3, 4):
@@ -71,6 +102,8 @@ def build():
             sig[f"m{n}.{op}"] = s.replace("M", f"M{n}").replace("V", f"V{n}").replace("#n", f"#{n}").split()
     for k, s in MAT_SPECIAL.items():
         sig[k] = s.split()
+    for k, v in QUAT.items():
+        sig[k] = v.split()
     return sig
 
 
